@@ -170,7 +170,8 @@ Inductive cev :=
 | CWake (w : nat)
 | CTimeout (w : nat)             (* asyncio.wait_for expires *)
 | CCancel (w : nat)
-| CReqFail (w : nat).            (* connection.send raises: the transaction id is used up, nothing is queued *)
+| CReqFail (w : nat)             (* connection.send raises: the transaction id is used up, nothing is queued *)
+| CSend.                         (* send_opack without "_x" (fire-and-forget event): uses up a transaction id *)
 
 Inductive cout :=
 | CDeliver (w : nat) (tag : N)
@@ -244,6 +245,7 @@ Definition cstep (s : cst) (e : cev) : cst * list cout :=
       | None => (s, [])
       end
   | CReqFail w => (MkC (N.succ (c_next s)) (c_q s) (c_wait s), [CSendErr w])
+  | CSend => (MkC (N.succ (c_next s)) (c_q s) (c_wait s), [])
   end.
 
 (* ================================================================== HTTP *)
